@@ -5,6 +5,8 @@ instances on which the driver evaluates `Schema.wf` on every run).
 import TdModel.Lemmas.C21
 import TdModel.Lemmas.C21Dec
 import TdModel.Lemmas.C21Flags
+import TdModel.Lemmas.C21FullA
+import TdModel.Lemmas.C21FullB
 
 namespace TdModel.C21
 open TdModel TdModel.Bin
@@ -97,6 +99,29 @@ theorem core_schema_size : coreSchema.ctors.size = 139 ∧ coreSchema.ifaces.siz
 theorem core_roundtrip (t : Ty) (v : Val) (e rest : Bytes) (henc : encTy coreSchema t v = some e) :
     decTy coreSchema v.size t (e ++ rest) = .ok (v, rest) :=
   tl_roundtrip coreSchema core_schema_wf t v e rest v.size henc (Nat.le_refl _)
+
+/-! ### Kernel-checked instance: the WHOLE regenerated schema (mt, e2e, tg: all 2629 constructors)
+
+`fullSchema` (Gen/C21Full*.lean) is the translated schema as a Lean term.  Its well-formedness is
+derived by `wf_of_cert` (proved once, for every schema) from a regenerated certificate that the
+kernel evaluates in linear passes plus two-level id lookups (`Lemmas/C21FullA/B.lean`,
+`decide +kernel`; about 30 s CPU each, built in parallel).  `full_schema_digest` pins the digest
+of the term to the one the translator computed; the driver prints the digest of the data file it
+loaded and the harness compares the two, so the instance the correspondence runs on is this term. -/
+
+theorem full_schema_wf : TdModel.Facts.C21Full.fullSchema.wf = true :=
+  wf_of_cert _ TdModel.Facts.C21Full.idChunks TdModel.Facts.C21Full.cert
+    full_ctors_ok full_chunks_ok full_ids_ok full_cert_ok
+
+theorem full_schema_digest :
+    TdModel.Facts.C21Full.fullSchema.digest = Facts.C21.schemaDigest := full_digest
+
+/-- The round trip for every generated constructor / interface / vector type of tg, mt, e2e, with
+no hypothesis left about the schema. -/
+theorem full_roundtrip (t : Ty) (v : Val) (e rest : Bytes)
+    (henc : encTy TdModel.Facts.C21Full.fullSchema t v = some e) :
+    decTy TdModel.Facts.C21Full.fullSchema v.size t (e ++ rest) = .ok (v, rest) :=
+  tl_roundtrip _ full_schema_wf t v e rest v.size henc (Nat.le_refl _)
 
 /-! Non-vacuity: a small schema with an interface of two constructors, a flags word, a
 conditional field, a true-flag and a vector; it is well-formed and the value is encodable. -/
